@@ -24,6 +24,11 @@ LEVEL = "translation_validation"
 DEPENDS = [
     ("C16", {"only_rules": ["NAMES", "LOOKUP", "ACCESS"],
              "why": "generated code and VM reach the Unicode tables through different access paths"}),
+    ("C05", {"only_rules": ["RESTORE-LEAVES", "RESTORE-WRAP", "RESTORE-SHAPE"],
+             "why": "the two back-ends spell repetition differently (the VM and the non-atomic generator run later "
+                    "iterations inside `sequence`, the atomic generator emits a bare `repeat`): they leave the same "
+                    "stack after an absorbed failure only because the shared optimizer wraps every fail-dirty child "
+                    "in RestoreOnErr"}),
 ]
 OEXPR = "pest_meta::optimizer::OptimizedExpr"
 RTYPE = "pest_meta::ast::RuleType"
